@@ -323,3 +323,28 @@ Theorem C04_probing_file_table_is_pmem_table : forall (t : atable) buckets n V s
   probing_image t slots buckets = Some img ->
   forall k, file_ptable buckets n V (parse_probing slots buckets (img ++ rest)) k = pmem_table buckets n V t k.
 Proof. exact file_ptable_is_pmem_table. Qed.
+
+(* ---- so the tables decoded from the LOADED files satisfy the loaders' invariant: every theorem of C01, C02 and C08, stated for an
+   arbitrary table with TInv, holds for the answers computed from a loaded trie / array-trie / probing file of the model ---- *)
+From Kenlm Require Import LM.TableExt C04.FileTables.
+Theorem C04_file_table_invariants : forall (array : bool) cfg n V (t : atable) pz M rest,
+  (2 <= n)%nat -> (0 <= V < 2 ^ 32)%Z -> (0 <= cfg)%Z -> TInv n (alookup t) M -> NoDup (map fst t) ->
+  (forall w, alookup t [w] <> None <-> (Z.of_N w < V)%Z) ->
+  (forall k e, alookup t k = Some e -> (- 2 ^ 24 < e_prob e < 2 ^ 24 /\ - 2 ^ 24 < e_bo e < 2 ^ 24)%Z) ->
+  (forall k e, alookup t k = Some e -> (2 <= length k)%nat -> (e_prob e <= 0)%Z) ->
+  (forall k e, alookup t k = Some e -> length k = n -> e_bo e = 0%Z) ->
+  (Z.of_nat (n * length t) < 2 ^ 57)%Z ->
+  TInv n (file_table array cfg n V (trie_counts n t) (C03.TrieImage.trie_image array cfg n t pz ++ rest)) M.
+Proof. exact file_table_invariants. Qed.
+
+Theorem C04_probing_file_table_invariants : forall buckets n V (t : atable) M slots img rest,
+  (2 <= n)%nat -> TInv n (Defs.alookup t) M -> NoDup (map fst t) ->
+  (forall w, Defs.alookup t [w] <> None <-> (Z.of_N w < V)%Z) ->
+  (forall k e, Defs.alookup t k = Some e -> (- 2 ^ 24 < e_prob e <= 0 /\ - 2 ^ 24 < e_bo e < 2 ^ 24)%Z) ->
+  (forall k e, Defs.alookup t k = Some e -> length k = n -> e_bo e = 0%Z) ->
+  (forall j, (2 <= j <= n)%nat -> (length (order_entries t j) < nth (j - 2) buckets 0)%nat) ->
+  (forall k, over_vocab n V k -> hash_key k <> 0%Z) ->
+  (forall k1 k2, over_vocab n V k1 -> over_vocab n V k2 -> hash_key k1 = hash_key k2 -> k1 = k2) ->
+  length buckets = (n - 1)%nat -> (V <= Z.of_nat slots)%Z -> probing_image t slots buckets = Some img ->
+  TInv n (file_ptable buckets n V (parse_probing slots buckets (img ++ rest))) M.
+Proof. exact probing_file_table_invariants. Qed.
